@@ -69,8 +69,15 @@ struct _successor_receiver<Operation, Values...>::type {
   void set_value(SuccessorValues&&... values) && noexcept {
     UNIFEX_ASSERT_CLEANUP(op_.cleanup_ == expectedCleanup);
 
-    unifex::set_value(
-        std::move(op_.receiver_), std::forward<SuccessorValues>(values)...);
+    // set_value() is allowed to throw (e.g. a receiver that takes the values by
+    // value and whose move/copy throws); this function is noexcept
+    UNIFEX_TRY {
+      unifex::set_value(
+          std::move(op_.receiver_), std::forward<SuccessorValues>(values)...);
+    }
+    UNIFEX_CATCH(...) {
+      unifex::set_error(std::move(op_.receiver_), std::current_exception());
+    }
   }
 
   void set_done() && noexcept {
